@@ -81,7 +81,7 @@ static void vexit(int code)
 LongWord in_start, in_stop, in_offset, in_entry;
 unsigned char in_startauto, in_stopauto, in_fill, in_mode, in_segment, in_dofilter, in_filter[2], in_nfilter, in_entrypresent;
 signed char in_startheader;
-long in_X;
+long in_X;                 /* in_X < 0: witness is header byte -1-in_X; else byte offset in_X of the window (a byte ADDRESS, mapped to its image offset below) */
 
 static const unsigned char ModeDivs[9]  = {1, 2, 2, 4, 4, 4, 4, 2, 2};
 static const unsigned char ModeMasks[9] = {0, 1, 1, 3, 3, 3, 3, 2, 2};
@@ -99,9 +99,22 @@ static int filter_ok(int r)
 }
 static int rec_selected(int r) { return rec_is_data(r) && filter_ok(r) && rec_seg(r) == in_segment; }
 
+#ifndef WINMAX
+#define WINMAX 64
+#endif
+/* reference: number of byte addresses below b that pass the -m lane filter ((a & mask) == eq; mask <= 3, so the
+   filter depends on a mod 4 only and every aligned group of 4 holds 4/div selected bytes) */
+static unsigned long long lane_below(unsigned long long b, unsigned div, unsigned mask, unsigned eq)
+{
+  unsigned long long c = (b >> 2) * (4 / div); unsigned i;
+  for (i = 0; i < 3; i++) if (i < (b & 3) && ((i & mask) == eq)) c++;
+  return c;
+}
+
 void harness(void)
 {
   unsigned G = 0, hdr, div, mask, eq;
+  unsigned long long wtotal, wbase, flen; long wit_x;
   int r, nsel = 0, have_entry_rec = 0;
   LongWord exp_start, exp_stop, first_entry = 0;
 
@@ -161,8 +174,8 @@ void harness(void)
   QuietMode = True;
   strcpy(TargName, "t");
   InitChunk(&UsedList);
-  targ.kind = VF_WIT; targ.pos = targ.size = 0; targ.wit_off = in_X; targ.wit_val = 0xEE; targ.wit_set = 0;
-  ASSUME(in_X >= 0);
+  targ.kind = VF_WIT; targ.pos = targ.size = 0; targ.wit_off = -1; targ.wit_val = 0xEE; targ.wit_set = 0;
+  ASSUME(in_X >= -4 && in_X < WINMAX);
 
   /* all selected records share one granularity (an image mixing granularities is not defined) */
   for (r = 0; r < CF_R; r++)
@@ -189,11 +202,24 @@ void harness(void)
   if (in_stopauto) { exp_stop = 0; for (r = 0; r < CF_R; r++) if (rec_selected(r) && in_rstart[r] + in_offset + in_rlen[r] / G - 1 > exp_stop) exp_stop = in_rstart[r] + in_offset + in_rlen[r] / G - 1; }
   CHECK(StartAdr == exp_start, "auto start = lowest used address of the selected records");
   CHECK(StopAdr == exp_stop, "auto stop = highest used address of the selected records");
-  ASSUME(((unsigned long long)StopAdr - (unsigned long long)StartAdr + 1) * G <= 64);   /* bound on the image size (4 chunks of the shrunk buffer) */
+  ASSUME(((unsigned long long)StopAdr - (unsigned long long)StartAdr + 1) * G <= WINMAX);   /* bound on the image size in bytes (the copy buffer is shrunk to 16) */
   if (in_startauto || in_stopauto) CHECK(MaxGran == G, "granularity of the selected records measured");
   else MaxGran = G;   /* explicit range: see known finding p2bin_maxgran */
-  ASSUME(((unsigned long long)StartAdr * G) % div == 0);        /* lane selection defined for an aligned window start */
+  /* window start and length need not be aligned to the -m lane group: the image holds exactly the bytes of the
+     window whose byte address passes the lane filter, in address order */
 
+  /* image offset of the witness: number of window bytes below it that pass the lane filter (the filter depends on the
+     byte address modulo 4 only) */
+  hdr = (unsigned)(in_startheader < 0 ? -in_startheader : in_startheader);
+  wtotal = ((unsigned long long)(StopAdr - StartAdr) + 1) * G; wbase = (unsigned long long)StartAdr * G;
+  flen = lane_below(wbase + wtotal, div, mask, eq) - lane_below(wbase, div, mask, eq);
+  if (in_X < 0) { ASSUME((unsigned)(-1 - in_X) < hdr); wit_x = -1 - in_X; }
+  else
+  {
+    ASSUME((unsigned long long)in_X < wtotal && ((wbase + (unsigned long long)in_X) & mask) == eq);
+    wit_x = (long)(hdr + lane_below(wbase + (unsigned long long)in_X, div, mask, eq) - lane_below(wbase, div, mask, eq));
+  }
+  targ.wit_off = wit_x;
 #ifndef SKIP_OPEN
   OpenTarget();
 #endif
@@ -205,26 +231,22 @@ void harness(void)
 #endif
 
   /* ---- oracle ---- */
-  hdr = (unsigned)(in_startheader < 0 ? -in_startheader : in_startheader);
   {
-    unsigned long long flen = ((unsigned long long)(StopAdr - StartAdr) + 1) * G / div;
     CHECK(targ.size == (long)(hdr + flen), "file length = entry header + selected range (scaled by granularity, thinned by -m)");
-    if (in_X < (long)hdr)
+    if (in_X < 0)
     {
       int present = in_entrypresent || have_entry_rec;
       LongWord ea = in_entrypresent ? in_entry : first_entry;
-      unsigned z = (unsigned)in_X;
+      unsigned z = (unsigned)wit_x;
       unsigned char e = !present ? 0 : (in_startheader > 0) ? (unsigned char)(ea >> (8 * z)) : (unsigned char)(ea >> (8 * (hdr - 1 - z)));
       CHECK(targ.wit_set && targ.wit_val == e, "entry-address header in the requested width and byte order");
       WITNESS("header byte");
     }
-    else if (in_X < (long)(hdr + flen))
+    else
     {
-      unsigned long long idx = (unsigned long long)(in_X - hdr), base = (unsigned long long)StartAdr * G, q, a, k;
+      unsigned long long q = wbase + (unsigned long long)in_X, a, k;
       unsigned char e = in_fill;
-      if (div == 1) q = base + idx;
-      else if (mask == 2) q = base + (idx >> 1) * 4 + eq + (idx & 1);
-      else q = base + idx * div + eq;
+      if ((wbase % 4) != 0 || (wtotal % 4) != 0) WITNESS("window not aligned to the lane group");
       a = q / G; k = q % G;
       for (r = 0; r < CF_R; r++)
         if (rec_selected(r))
